@@ -30,6 +30,16 @@ CLAIMS = {
          "Decides (substantial): every reachable compressor configuration (3 formats x 11 levels x 5 strategies x 16 window settings, plus clamps and CompressorOxide::new) yields an RFC 1950 valid header; the header is emitted only under the zlib flag at block_index 0 and block_index always advances; the trailer is the four bytes of params.adler32, most significant first, after byte alignment, and nothing follows; the running Adler-32 is updated with exactly the consumed input; the decoder's epilogue returns Done in zlib mode only if the trailer equals the freshly updated checksum (Adler32Mismatch otherwise) unless IGNORE_ADLER32; validate_zlib_header equals the RFC 1950 predicate on all 2^16 pairs. NOT decided: the numeric value of the checksum (delegated to adler2 / simd-adler32)."),
  "C18": ("field-effect summaries (may/must-write), liveness over the extracted decoder automaton",
          "Decides: every field the compression data path may write is must-written by CompressorOxide::reset (derived from the fact base, not hand-listed); each InflateState reset policy must-writes every field inflate() may write; after DecompressorOxide::init() no scalar decoder field is read before it is written on any path from State::Start; no mutable statics, hash-randomised containers, clocks, environment or pointer-to-integer casts; mz_deflateReset reaches CompressorOxide::reset. NOT decided: byte-identical output after reset for all histories; prefix-written decoder arrays are outside the scalar liveness. Known finding KF-5 (MinReset leaves the window)."),
+ "C03": ("table oracle (RFC 1951 written independently), extracted index expressions, inductive path evaluation on MIR",
+         "Decides (tables / grammar / bit discipline only): decoder base/extra tables, code-length order, table-size bases and widths, repeat-code parameters and fixed-block lengths equal RFC 1951 as the code uses them; the stored-block header is collected through a persisted counter; the slow-path Huffman walk never lets a bit beyond num_bits decide (base case + inductive step). NOT decided: canonical code assignment in init_tree, the tree walk result, apply_match/transfer copy semantics — i.e. conformance over the language of valid streams."),
+ "C01": ("table oracle, path tables, finite-domain evaluation of configuration code on MIR",
+         "Decides structural clauses only: the encoder's symbol/extra-bit computation (index expressions extracted from compress_lz_codes) agrees with RFC 1951 and with the decoder's tables for all 256 lengths and 32768 distances, and record_match counts the symbols that are emitted; fixed-block lengths agree; every dictionary writer mirrors positions < 257 past the window end; the grow-and-retry loops account exactly and panic only on an impossible status; levels above 10 behave as 10 with no out-of-range probe index; every flush_block result is checked; the stored-block source position advances by exactly the bytes a block encoded. NOT decided: that LZ parsing, Huffman construction and bit packing reproduce the input for all data; absence of panics on the compression path."),
+ "C08": ("per-path write budget against established space facts, who-may-write, path tables on MIR",
+         "Decides: the granted window is min(out_pos + out_max, len) and bytes_left is relative to it; the output slice is written only through write_byte / write_slice / apply_match / transfer; on every path of every state-machine arm and of the fast loop the bytes that may be written (maximum match length taken from the tables) do not exceed the space the path has verified; HasMoreOutput only with a full window; transfer()'s word loops are bounded by match_len rounded down to 4 and the tail is copied on every return; the vector helpers cap allocation/growth by the limit. NOT decided: that the copy loops of transfer stay below max for every (length, position) beyond those bounds; byte-exact preservation outside the window."),
+ "C10": ("table oracle, finite-domain routing table, call-graph reachability, dominance on MIR",
+         "Decides: encoder tables and fixed lengths equal RFC 1951; for all 3x11x5x16 configurations exactly one compress routine is reachable, level 0 / raw only reaches compress_stored (which reaches no match or literal recording), RLE and Filtered never reach compress_fast, the fixed strategy forces static blocks at every compress_block call, Huffman-only has a probe budget that makes find_match return at once, the run-length branch uses distance 1 without hash search, filtered mode never records a fresh match <= 5; code-length limits 15/15/7, dynamic header field widths, stored LEN/NLEN, BFINAL from flush == Finish; exactly one final block. NOT decided: completeness/optimality of generated codes, match validity, compression ratio."),
+ "C11": ("finite-domain evaluation of configuration code + value-bound of the distance admission terms on MIR",
+         "Decides (substantial): for every zlib configuration of with_params (and for every flags class x window_bits_max that later level/format changes can install) the upper bound of the admitted match distance — the term the distance is compared against in compress_fast, the max_dist argument of find_match, 1 in the run-length branch, evaluated with the invariant dict.size <= 32768 derived from all its writers — does not exceed the window the header declares. Two genuine defects found by this check were repaired (KF-1, KF-2; see known_findings.json)."),
  "C12": ("path tables and must-write effects on MIR",
          "Decides: the bit sequence of every flush marker equals the RFC 1951 empty stored / empty fixed block, with the *Opt forms only when unaligned; Full flush clears hash chains and dictionary size after a successful block; markers are emitted only with all input consumed, lookahead empty and nothing pending; flush conversions are total and value preserving; exits of the deflate() driver loop. NOT decided: prefix decodability and independence of the post-flush remainder for all inputs."),
  "C13": ("path-sensitive decision tables on MIR",
